@@ -40,25 +40,6 @@ def intJson (i : Int) : Json := .num (toString i)
 
 /-! ## `any` / `json.RawMessage` parameters -/
 
-/-- Go map semantics for object members: the last duplicate wins -/
-def dedupeLast : List (String × Json) → List (String × Json)
-  | [] => []
-  | kv :: r => if r.any (fun x => x.1 == kv.1) then dedupeLast r else kv :: dedupeLast r
-
-mutual
-/-- the value after `json.Marshal(param)` of the generic Go value: objects lose duplicates -/
-def canon : Json → Json
-  | .arr xs => .arr (canonList xs)
-  | .obj kvs => .obj (dedupeLast (canonMembers kvs))
-  | j => j
-def canonList : List Json → List Json
-  | [] => []
-  | x :: xs => canon x :: canonList xs
-def canonMembers : List (String × Json) → List (String × Json)
-  | [] => []
-  | (k, v) :: r => (k, canon v) :: canonMembers r
-end
-
 /-- a number literal that survives the trip through float64 unchanged: plain integer of at most
 15 digits -/
 def safeNum (t : String) : Bool :=
@@ -200,8 +181,8 @@ def goDecode (strictAny : Bool) : PType → Json → Option Json
   | .ints, .null => some .null
   | .ints, .arr xs => (listAll? decodeInt xs).map (fun is => .arr (is.map intJson))
   | .ints, _ => none
-  | .vstruct, v => decodeVStruct v
-  | .bounds, v => decodeBounds v
+  | .vstruct, v => decodeVStruct (canon v)
+  | .bounds, v => decodeBounds (canon v)
 
 def goZero : PType → Json
   | .any => .null
